@@ -352,6 +352,10 @@ impl RecordSet {
             //   everything under it (via DNAME).
             RecordType::CNAME | RecordType::ANAME => {
                 assert!(self.records.len() <= 1);
+                // re-adding the record that is already there changes nothing
+                if self.records.first() == Some(&record) {
+                    return false;
+                }
                 self.records.clear();
             }
             _ => (),
